@@ -55,7 +55,9 @@ MetricOptional == IdKeys
 
 -----------------------------------------------------------------------------
 (* Shapes and their images *)
-TextAtoms == {"Str", "StrCtl", "StrUni", "EnumUnit", "Err", "ErrChain", "Level", "LevelText",
+\* "Reent": a value whose Display / sval impl emits another event through the same sink
+\* while it is being rendered; its image is its Display text
+TextAtoms == {"Str", "StrCtl", "StrUni", "Reent", "EnumUnit", "Err", "ErrChain", "Level", "LevelText",
               "IdTyped", "IdHex", "KindSpan", "KindMetric", "AggCount", "AggSum", "AggLast"}
 BigAtoms == {"U64Big", "I128", "U128"}
 FloatAtoms == {"F64", "NaN", "Inf"}
